@@ -74,6 +74,15 @@ def families(n):
         total = len(r0.data)
         counts = [max(1, (total - (o + 16)) // 12 - 1) for o in pos][-kk:]
         out.append(("short%d_%s_x%d" % (declared, typ.decode(), kk), bytes(movie(counts).data)))
+    # k data information boxes whose data reference announces 2^32-1 entries and holds none, then a zero-size header: an entry loop that is not bounded
+    # by the end of its own box walks over all the following boxes — k times
+    kk = max(2, n // 24)
+    tr = {"id": 1, "kind": "avc", "ts": 1000, "sizes": [1], "chunks": [1], "deltas": [1], "cts": None, "sync": None, "co64": False}
+    for declared in (16, 24):
+        r0, _, nodes = isogen.build_movie([tr])
+        minf = nodes[1].find("trak")[0].find("mdia")[0].find("minf")[0]
+        minf.items = list(minf.items) + [B("dinf", [B("dref", [isogen.F(4, 0), isogen.F(4, 0xFFFFFFFF)], size_override=declared)]) for _ in range(kk)] + [isogen.Raw(b"\0" * 8)]
+        out.append(("dref_count_x%d_%d" % (kk, declared), bytes(isogen.render(nodes).data)))
     # k meta boxes WITHOUT a handler box, followed by a stray hdlr sibling: a search for the handler that runs past the end of its meta box
     # finds that one — k times
     # (32-byte meta boxes and a 32-byte hdlr: the stray handler box is not larger than the boxes whose overlong scan meets it; k = n/8 boxes, the budget is
